@@ -39,6 +39,19 @@ def r1(ctx):
     a = sym('a')
     r = ev.call(f, [p, c, a], {})
     ctx.need(isinstance(r, Obj) and r.cls == 'PixCoord', 'PixCoord.rotate', f'returns {show(r, 120)}')
+    # rank: coordinates may be arrays of any shape; np.matmul / @ / np.dot treat a stacked (2, n, m) operand as a
+    # stack of matrices, so they rotate per point only for scalars and 1-D arrays
+    import ast as _ast
+    from ..astutil import call_name
+    for n in _ast.walk(f.node):
+        nm = (call_name(n) or '') if isinstance(n, _ast.Call) else ''
+        if (isinstance(n, _ast.BinOp) and isinstance(n.op, _ast.MatMult)) or nm.split('.')[-1] in ('matmul', 'dot'):
+            ctx.bad('PixCoord.rotate', 'rank',
+                    f'`{_ast.unparse(n)[:70]}` contracts the rotation matrix with the stacked (x, y) array by matmul/dot '
+                    'broadcasting rules: for coordinate arrays with 2 or more dimensions (e.g. shape (2, 3)) the result is not '
+                    'the per-point rotation (np.tensordot(R, v, axes=1), einsum or the component formula are rank-generic)',
+                    f.loc(n))
+            return
     px, py, cx, cy = sym('p.x'), sym('p.y'), sym('c.x'), sym('c.y')
     wx, wy = rotate_oracle(px, py, cx, cy, a)
     gx, gy = r.fields.get('x'), r.fields.get('y')
